@@ -296,6 +296,71 @@ def stdlib_scalar_cases(rng, n):
                            oracle_fail=fail, sig=f"roundtrip|std-scalar|{kind}|{fmt}")
 
 
+_FREE_CLASS: list = []
+
+
+def _typed_eq(a, b) -> bool:
+    """equal values of equal container types, recursively (a list is not a tuple)"""
+    if type(a) is not type(b):
+        return False
+    if isinstance(a, (list, tuple)):
+        return len(a) == len(b) and all(_typed_eq(x, y) for x, y in zip(a, b))
+    if isinstance(a, dict):
+        return list(a) == list(b) and all(_typed_eq(a[k], b[k]) for k in a)
+    return a == b
+
+
+def freeform_cases(rng, n):
+    """free-form property values (annotation `Any` / `Mapping[str, Any]`) made of what every one of the four formats writes
+    natively -- nested lists and string-keyed dicts of str / int / bool / None: the new node holds equal values of equal
+    container types (a list comes back as a list), same class, id, content_id"""
+    import dataclasses as _dc
+    from typing import Any as _Any, Mapping as _Mapping
+    if not _FREE_CLASS:
+        ns = {"__annotations__": {"meta": _Any, "table": _Mapping[str, _Any], "note": _Any},
+              "meta": None, "table": _dc.field(default_factory=dict), "note": _dc.field(default=None, compare=False),
+              "__module__": __name__}
+        _FREE_CLASS.append(_dc.dataclass(frozen=True)(type("FreeForm", (zoo.Expr,), ns)))
+    cls = _FREE_CLASS[0]
+
+    def val(d=0):
+        k = rng.random()
+        if d >= 3 or k < 0.35:
+            return rng.choice([0, 1, -7, 2 ** 40, "", "a", "é", True, False, None])
+        if k < 0.7:
+            return [val(d + 1) for _ in range(rng.randint(0, 3))]
+        # keys in sorted order: `to_yaml` writes mappings with sorted keys, so a dict whose insertion order is not the
+        # sorted one comes back in another order (and with another content_id when the property is comparable) -- mappings
+        # are not among the representable kinds the property lists; only order-insensitive shapes are generated
+        keys = sorted({rng.choice(["k", "a", "b", "x y", ""]) + str(j) for j in range(rng.randint(0, 3))})
+        return {k: val(d + 1) for k in keys}
+    for _ in range(n):
+        for fmt in FORMATS:
+            gc.collect()
+            meta, table, note = val(), {f"t{j}": val(1) for j in range(rng.randint(0, 3))}, [val(1), [val(2)]]
+            fail = None
+            try:
+                n0 = cls(meta=meta, table=table, note=note)
+                want = (n0.id, n0.content_id)
+                payload = serialize(n0, fmt, None)
+                n0.detach()
+                b = deserialize(cls, fmt, payload)
+                if b is n0 or type(b) is not cls or (b.id, b.content_id) != want:
+                    fail = f"class / id / content_id changed: {type(b).__name__} {b.id} {b.content_id} vs {want}"
+                else:
+                    for nm, orig in (("meta", meta), ("table", table), ("note", note)):
+                        got = getattr(b, nm)
+                        if not _typed_eq(got, orig):
+                            fail = f"property {nm}: {got!r} != {orig!r}"
+                            break
+                b.detach()
+                del b, n0
+            except Exception as e:  # noqa
+                fail = f"round trip raised {type(e).__name__}: {e}"[:200]
+            yield Case("roundtrip:free-form", None, None, True, f"FreeForm(meta={meta!r}, table=…, note=…) format={fmt}"[:300],
+                       oracle_fail=fail, sig=f"roundtrip|free-form|{fmt}")
+
+
 def twin_order_cases(rng, n):
     """two distinct but equal nodes inside ONE tree (ids `h` and `h_1`), in either order of appearance, alone or below
     other nodes, round-tripped after the originals left the registry: every position gets back its own id, the two stay
@@ -343,6 +408,7 @@ def twin_order_cases(rng, n):
 def cases(rng: random.Random, tier: str):
     yield from twin_order_cases(rng, 12 if tier == "quick" else 200)
     yield from stdlib_scalar_cases(rng, 3 if tier == "quick" else 40)
+    yield from freeform_cases(rng, 12 if tier == "quick" else 300)
     n = 60 if tier == "quick" else 1500
     fresh_items, fresh_desc = [], []
     for _ in range(n):
